@@ -141,3 +141,9 @@ func init() {
 		Rule: "one case = a history of AddField/RemoveField/AddDoc (new and replacing)/RemoveDoc/reopen over 3 fields (one nested), 4 document ids, string terms and numeric terms over sign/magnitude boundary values (+-1e9, +-MaxFloat64, SmallestNonzero, fractions, zero); after every step ~100 query results (term match, field terms, term counts, string term counts, min, max, ascending listing, five numeric windows) are compared with a brute-force scan of the live documents; the streaming query goroutines run under a seeded schedule with scaled channel capacities. non-trivial = at least 2 operations; distinct = distinct operation sequences",
 		Assumptions: []string{"numeric window boundaries are not judged (inclusivity undocumented)", "min/max with no numeric term are not judged", "-0.0 is not generated (the index distinguishes it from 0 by bytes, a scan does not)"}}
 }
+
+func init() {
+	props["C19"] = &propCfg{Level: "exploration", QuickRuns: 6000, QuickS: 50, ThoroughRuns: 600000, ThoroughS: 1500,
+		Rule: "one case = (graph of 0..30 one-label vertices whose field values form a seeded multiset: missing, null, bool, string, negative/zero/fractional numbers, list, map, duplicates; a traversal V()[.hasLabel|.out] feeding aggregate() with 1..4 uniquely named aggregations: count, term (size 0/1/2/100), histogram (interval 1/2/5), percentile (several percent lists), field, type; capacity divisor, policy, schedule seed); every aggregation is judged against a direct computation over the reference rows and re-run alone (independence). non-trivial = non-empty input; distinct = distinct (graph, aggregations, divisor, decision-sequence hash)",
+		Assumptions: []string{"the rows entering aggregate() are those of refql for the prefix", "term ties and the UNKNOWN type bucket are not judged", "percentiles are judged only by monotonicity and range (the estimator is approximate)"}}
+}
